@@ -121,12 +121,39 @@ type Ctx struct {
 	stretched   atomic.Bool
 	procs       atomic.Int32 // GOMAXPROCS set by WithProcs (0: the default)
 	escaped     []escapedPanic
+	watchdog    sync.Once
 	internalErr []string
 	notes       []string
 }
 
+// Current is the context of the check this process runs (nil in worker processes).
+var Current *Ctx
+
+// LibraryGoroutinePanic records a panic in a goroutine that the library started itself on a valid call
+// (the shim recovers it; without that the process would end without a verdict).  The caller inside the
+// library may now wait forever for that goroutine: a watchdog ends the check with the violation after a
+// minute if it has not ended by itself.
+func (c *Ctx) LibraryGoroutinePanic(msg, stack string) {
+	where, _ := LibraryPanicOrigin(stack)
+	c.Escaped(msg+" (in a goroutine started by the library)", where, stack)
+	c.watchdog.Do(func() {
+		time.AfterFunc(60*time.Second, func() {
+			id := c.Prop.ID
+			key := id + "/library-panic"
+			h := sha256.Sum256([]byte(id + "\x00" + key))
+			path := filepath.Join(Root, "replays", id+"-"+hex.EncodeToString(h[:6])+".json")
+			b, _ := json.MarshalIndent(map[string]any{"property": id, "key": key, "panic": msg, "origin": where, "stack": stack, "tier": c.Tier,
+				"note": "a goroutine started by the library panicked on a valid call and the check did not come to an end afterwards (the library waits for that goroutine?)"}, "", " ")
+			os.WriteFile(path, b, 0o644)
+			fmt.Printf("VIOLATION property=%s replay=%s key=%s count=1 :: a goroutine started by the library panicked on a valid call made by the harness: %s (in %s)\n", id, path, key, msg, where)
+			os.Exit(1)
+		})
+	})
+}
+
 func NewCtx(p *Prop, tier string, seed int64) *Ctx {
 	c := &Ctx{Prop: p, Tier: tier, Seed: seed, Start: time.Now(), cov: map[string]any{}, fails: map[string]*failRec{}}
+	Current = c
 	budget := 50 * time.Second
 	if tier == "thorough" {
 		budget = 15 * time.Minute
